@@ -30,3 +30,56 @@ CLAIMS["C15"] = dict(category="proof", technique="one generated contract per com
     note=TB + " float32 rounding uninterpreted (f32 on both sides); integer arguments assumed to fit their field. One open known finding (F8, lock_command has_code).")
 
 NOT_APPLICABLE = {}
+
+# ---- connection layer (C05-C12): shared machinery in contracts/conn_model.py + contracts/conn.py -------------------------------------
+CONN_TB = (TB + " Connection layer: A-LOOP (asyncio runs one callback at a time), A-CALLBACK (user callbacks may re-enter the public API but do not feed packets "
+           "and return), A-SETITER, A-PROTOBUF, A-FUTOWN (a future created in a call is completed only by the callables it was handed to), the frame scan of field stores, "
+           "and the ASSUMED contract of _connect_socket_connect (TCP connect loop over aiohappyeyeballs: not verified). Library awaitables (create_connection, asyncio.wait, "
+           "async_resolve_host, interrupt, asyncio.timeout) are modelled by assumed contracts (A-LIB).")
+CONN_TECH = ("object invariant Inv_conn + two-state relation Step_conn (rely/guarantee at cut points: every await and every call-out havocs the connection under Step* and Inv), "
+             "function contracts on the real APIConnection methods, VCs generated from the AST of /repo on every run and discharged by z3 (cvc5 for unknowns); "
+             "state-injection replay of counter-models on the real object where a native evaluator exists")
+
+CLAIMS["C05"] = dict(category="proof", technique=CONN_TECH,
+    text="Step_conn clauses S1 (rank of the state never decreases) and S2 (closed is final) and Inv clause I1 (is_connected <=> CONNECTED, _handshake_complete <=> HANDSHAKE_COMPLETE|CONNECTED) "
+         "are obligations of every segment (function entry / await / call-out / exit) of _set_connection_state, _cleanup, report_fatal_error, force_disconnect, disconnect, send_messages, process_packet, "
+         "the keepalive callbacks, the internal request handlers, start_connection, finish_connection, _connect_resolve_host, _connect_init_frame_helper and send_messages_await_response_complex, "
+         "from ANY state satisfying Inv and with the shared state havocked at every cut point - i.e. for every interleaving, including events in the same loop turn. "
+         "start/finish_connection: RuntimeError and no change unless in their start state; normal exit exactly in the target state; every failing exit CLOSED. Step_conn is proved to be a preorder.",
+    note=CONN_TB + " Two genuine defects found by these obligations were repaired (F1/F2, commit ff9fdd9).")
+CLAIMS["C06"] = dict(category="proof", technique=CONN_TECH,
+    text="_process_hello_resp accepts iff major <= 2 and (no expected name, or empty/equal received name) and raises BadNameAPIError carrying the received name / APIConnectionError otherwise; "
+         "_process_login_response raises InvalidAuthAPIError iff invalid_password; _connect_hello_login writes HelloRequest(client_info,1,10)[+ConnectRequest(password)] in one write and returns normally "
+         "only after both checks accepted responses of the right classes (for every arrival order admitted by the request-response contract of C11); finish_connection reaches CONNECTED only after that, "
+         "and every failing exit is CLOSED with the stop callback not invoked.",
+    note=CONN_TB + " Recorded reading: a device that sends no name (empty string) predates the field and is accepted.")
+CLAIMS["C07"] = dict(category="proof", technique=CONN_TECH,
+    text="Inv clauses I3: stop_calls in {0,1}; stop_calls == 1 <=> (CONNECTED was ever reached and state is CLOSED and a callback was given); the callback is cleared before it is called. "
+         "_cleanup increments the count exactly when it closes a connected connection; reason clause: the argument equals the ghost marker 'graceful disconnect initiated' (set at ENTRY of disconnect(), "
+         "force_disconnect() and the DisconnectRequest handler, as the statement says, not where the code sets its flag) - Inv I5 and Step S13, for every order and multiplicity of close causes (each is an entry point verified from any Inv state).",
+    note=CONN_TB + " One genuine defect found by I5 was repaired (F12, commit db45158).")
+CLAIMS["C08"] = dict(category="proof", technique=CONN_TECH,
+    text="Inv I2: CLOSED => no keepalive/pong timer referenced, waiter set empty, connect futures done; CLOSED and no connect phase running => frame helper and socket released; _cleanup closes helper and socket, "
+         "disarms both timers, completes every waiter, also for resources a resumed connect phase acquired after the first close; send_messages writes nothing unless the handshake completed (hence nothing after close) "
+         "and only to an open helper; process_packet on a CLOSED connection invokes no handler; a request-response call leaves no handler, waiter or armed timer on any exit.",
+    note=CONN_TB + " OS-level release is where the contract ends (helper.close()/socket.close() called). Genuine defect repaired: F4 (commit 97e27ce).")
+CLAIMS["C09"] = dict(category="proof", technique=CONN_TECH,
+    text="Classification: start/finish_connection raise only APIConnectionError subclasses (RuntimeError for misuse), _wrap_fatal_connection_exception is total and keeps/derives the class as documented, "
+         "send_messages raises only ConnectionNotEstablished/SocketClosed, the request-response calls only TimeoutAPIError / the connection's error / the caller's own cancellation, disconnect raises nothing else; "
+         "no AttributeError (Inv I4). First cause wins: Step S3 (_fatal_exception write-once) and _cleanup's waiter postcondition. Every wait has a deadline: at each await an armed timer for that future exists or a timeout context / bounded library wait encloses it.",
+    note=CONN_TB + " 'Never hangs' is reduced to A-LOOP (timers fire, callbacks terminate); the TCP phase bound is per attempt (assumed contract).")
+CLAIMS["C10"] = dict(category="proof", technique=CONN_TECH + "; L3 window lemma over reals (z3, no induction)",
+    text="_async_send_keep_alive: one PingRequest iff no message since the last tick; pong deadline armed at now+4.5K only if none is armed, never moved; next tick at now+K with the flag set; "
+         "process_packet of any decodable message of a defined type cancels the pong timer and clears the flag before any subscriber runs; _async_pong_not_received closes with PingFailedAPIError and an unexpected stop unless graceful. "
+         "Lemma: from these clauses a peer silent from t is declared dead at T0+5.5K in [t+5.5K, t+6.5K) (t+6.5K when the last message ties with a tick), and never while gaps stay below 4.5K.",
+    note=CONN_TB + " Ideal timers (A-LOOP); the lemma's hypotheses are a transcription of the named contract clauses.")
+CLAIMS["C11"] = dict(category="proof", technique=CONN_TECH + "; call invariant by explicit induction step (lemma ci_step over the real handle_complex_message contract)",
+    text="send_messages_await_response_complex (arities 1-2 messages x 1-2 response types): request written once, collector registered for exactly its types and waiter + timeout armed in the same segment as the write (no cut point in between); "
+         "handle_complex_message appends iff accepted and not yet complete, completes iff stop; call invariant (collected == accepted arrivals up to the first stop) by induction step; every exit (result, timeout, connection error, cancellation) "
+         "leaves handler, waiter and timer removed; add/remove callbacks touch only their own entry of the handler table (whole-view frame for an arbitrary other key) - non-interference of concurrent calls.",
+    note=CONN_TB + " A-PRED (predicates pure).")
+CLAIMS["C12"] = dict(category="proof", technique=CONN_TECH,
+    text="process_packet for every type number >= 0 and payload: undefined type => no field, region, handler entry or ghost changes and nothing is written; defined type => the class api.proto assigns (oracle parsed from the text) and "
+         "dispatched == old + [(h, msg) for h in enum(snapshot of the handler set at entry)], each exactly once, whatever the callbacks do to the table (loop invariant, re-entrancy havoc at each call-out); undecodable payload => closed with ProtocolAPIError, no handler call; "
+         "ping/time/disconnect handlers write exactly the matching response (disconnect: response before close, expected stop); the internal handlers are registered before the first hello/login exchange.",
+    note=CONN_TB + " Genuine defect repaired: F5 (commit ed6ec9e).")
